@@ -34,7 +34,7 @@ theorem filter_flatten' (p : Upd α → Bool) (L : List (List (Upd α))) :
 
 theorem runBatchE_eq (D : Dom α) (exp : Bool) (ex : Nat → Bool) (levels : List (List (Upd α))) (s : St α) :
     runBatchE D exp ex levels s = runBatch D exp (liveLevels ex levels) s := by
-  simp only [runBatchE, runBatch, pass1, pass2, runPass_stepE, filter_flatten', liveLevels, List.map_reverse]
+  simp only [runBatchE, runBatch, pass1, pass2, runPass_stepE, sweep2_eq, List.filter_reverse, filter_flatten', liveLevels]
 
 /-! ### cache frame: a sweep changes cache entries only of its own directories -/
 
